@@ -235,7 +235,7 @@ def _pool_map(fn, items, chunk):
 # random cases (code -> spec)
 
 WS = [" ", "\t", " ", " ", "　"]
-ALPH = "a0;. -+eE_é٣中\U0001f600" + "".join(WS) + "\x1c\x1e\x1f"
+ALPH = "a0;. -+eE_é٣中\U0001f600" + "".join(WS) + "\x1c\x1e\x1f\x00\x01\x7f\x00"
 
 
 def rand_payload(rnd: random.Random, maxlen: int) -> str:
